@@ -333,6 +333,40 @@ distinct (key class, length class) stream cells",
                 rep.sample(format!("key {} : {} messages, both directions, independent partitions", hex(&k), msgs));
             }
         }
+        // related session keys, one after the other on this thread: keys that differ from a base key in one bit at an
+        // early, middle or late byte (a derivation remembered under a partial key would show here)
+        for _ in 0..(if nkeys >= 1000 { 6 } else { 1 }) {
+            let base: [u8; 40] = rng.arr();
+            let mut fam: Vec<[u8; 40]> = vec![base];
+            for pos in [0usize, 7, 8, 15, 16, 19, 20, 31, 32, 39] {
+                let mut k2 = base;
+                k2[pos] ^= 1 << rng.below(8);
+                fam.push(k2);
+            }
+            fam.push(base);
+            for k in fam {
+                let mkey = (kind_ref.model_key)(&k);
+                let (mut client, mut server) = match guard(|| (kind_ref.pair)(k)) {
+                    Ok(p) => p,
+                    Err(e) => {
+                        rep.violation(&format!("{}:panic:construct", kind_ref.prop), e, format!("stream {} 0 0", hex(&k)));
+                        continue;
+                    }
+                };
+                let mut m1 = ModelAdd::new(&mkey);
+                let mut m2 = ModelAdd::new(&mkey);
+                let n1 = 24 + rng.below(60) as usize;
+                let plain = rng.bytes(n1);
+                let ps = rng.next();
+                add_stream(kind_ref, &mut rep, &k, &plain, &mut client, &mut server, &mut m1, ps, "related_keys");
+                let plain2 = rng.bytes(30);
+                let ps2 = rng.next();
+                add_stream(kind_ref, &mut rep, &k, &plain2, &mut server, &mut client, &mut m2, ps2, "related_keys");
+                rep.ev(2);
+                rep.count("related_key_objects", 1);
+                rep.cell(&[7, 7]);
+            }
+        }
         // long-running connections
         if (sh as u64) < long_streams {
             let k: [u8; 40] = rng.arr();
@@ -523,6 +557,33 @@ distinct = (key class, directions crossing 256 / 65536 bytes) cells + session ke
             rep.distinct_extra += 1;
             if sh == 0 && i == 0 {
                 rep.sample(format!("key {} : {} bytes of traffic split over both directions", hex(&k), l));
+            }
+        }
+        for _ in 0..(if nkeys >= 1000 { 3 } else { 1 }) {
+            let base: [u8; 40] = rng.arr();
+            let mut fam: Vec<[u8; 40]> = vec![base];
+            for pos in [0usize, 7, 8, 15, 16, 20, 31, 32, 39] {
+                let mut k2 = base;
+                k2[pos] ^= 1 << rng.below(8);
+                fam.push(k2);
+            }
+            // keys with zero bytes at either end (a derivation that treats K as a number would trim them)
+            for z in [1usize, 2, 8] {
+                let mut k2 = base;
+                for i in 0..z {
+                    k2[39 - i] = 0;
+                }
+                fam.push(k2);
+                let mut k3 = base;
+                for i in 0..z {
+                    k3[i] = 0;
+                }
+                fam.push(k3);
+            }
+            fam.push(base);
+            for k in fam {
+                wrath_connection(&mut rep, k, &mut rng, 300, 4);
+                rep.count("related_key_objects", 1);
             }
         }
         if sh < huge {
